@@ -18,6 +18,7 @@ type colMeta struct {
 	length   int
 	scale    int
 	dyn      bool // type inferred from the values
+	unsigned bool
 }
 
 func (s *session) dispatch(p *piece, args []interface{}) (*outcome, error) {
@@ -364,7 +365,7 @@ func (c *evalCtx) projections(st *ast.SelectStmt) ([]projection, error) {
 				return nil, myErr(1051, "Unknown table '%s'", f.WildCard.Table.O)
 			}
 			for i, col := range c.t.def.Cols {
-				out = append(out, projection{col: i, meta: colMeta{name: col.Name, typ: col.Type, nullable: col.Nullable, length: col.Length, scale: col.Scale}})
+				out = append(out, projection{col: i, meta: colMeta{name: col.Name, typ: col.Type, nullable: col.Nullable, length: col.Length, scale: col.Scale, unsigned: col.Unsigned}})
 			}
 			continue
 		}
@@ -379,7 +380,7 @@ func (c *evalCtx) projections(st *ast.SelectStmt) ([]projection, error) {
 		if cn, ok := e.(*ast.ColumnNameExpr); ok {
 			if cn.Name.Name.O == "*" && c.t != nil { // the proxy builds SELECT * as a column named "*"
 				for i, col := range c.t.def.Cols {
-					out = append(out, projection{col: i, meta: colMeta{name: col.Name, typ: col.Type, nullable: col.Nullable, length: col.Length, scale: col.Scale}})
+					out = append(out, projection{col: i, meta: colMeta{name: col.Name, typ: col.Type, nullable: col.Nullable, length: col.Length, scale: col.Scale, unsigned: col.Unsigned}})
 				}
 				continue
 			}
@@ -388,7 +389,7 @@ func (c *evalCtx) projections(st *ast.SelectStmt) ([]projection, error) {
 				return nil, err
 			}
 			col := c.t.def.Cols[i]
-			out = append(out, projection{col: i, meta: colMeta{name: fieldName(f), typ: col.Type, nullable: col.Nullable, length: col.Length, scale: col.Scale}})
+			out = append(out, projection{col: i, meta: colMeta{name: fieldName(f), typ: col.Type, nullable: col.Nullable, length: col.Length, scale: col.Scale, unsigned: col.Unsigned}})
 			continue
 		}
 		p := projection{col: -1, expr: e, meta: colMeta{name: fieldName(f), typ: TVarchar, nullable: true, dyn: true}}
